@@ -13,6 +13,8 @@ use std::sync::mpsc;
 use std::time::{Duration, Instant};
 
 pub const VERIF_ROOT: &str = "/verif";
+/// stop sampling once this many failing runs have been collected
+pub const EARLY_STOP_FAILURES: usize = 60;
 
 #[derive(Clone, Copy, Debug, PartialEq, Eq)]
 pub enum Tier {
@@ -61,6 +63,9 @@ pub struct Outcome {
     /// harness problems (never violations): generator mismatch, replay divergence, harness limits
     pub harness_error: Option<String>,
     pub sample: Option<Value>,
+    /// (worker processes) the run got stuck in the simulator and tainted this process: restart a fresh worker
+    /// at this run with this preemption level (see simrt::TAINTED)
+    pub respawn_at_level: Option<u8>,
 }
 
 impl Outcome {
@@ -178,8 +183,10 @@ pub fn run_one(prop: &dyn Prop, env: &Env, index: u64) -> (Value, Outcome) {
 }
 
 /// Worker process: runs indices from, from+step, ... < to; prints JSON lines.
-pub fn worker_main(prop: &dyn Prop, env: &Env, from: u64, to: u64, step: u64, progress: &Path, keep_digests: bool) {
+pub fn worker_main(prop: &dyn Prop, env: &Env, from: u64, to: u64, step: u64, progress: &Path, keep_digests: bool, first_level: u8) {
     prop.worker_init();
+    crate::simrt::set_respawn_mode(true);
+    crate::simrt::set_start_level(first_level);
     let stdout = std::io::stdout();
     let mut sum = Summary::default();
     let mut distinct: BTreeSet<u64> = BTreeSet::new();
@@ -193,6 +200,24 @@ pub fn worker_main(prop: &dyn Prop, env: &Env, from: u64, to: u64, step: u64, pr
             let _ = pf.write_all_at(&i.to_le_bytes(), 0);
         }
         let (_case, out) = run_one(prop, env, i);
+        crate::simrt::set_start_level(0);
+        if let Some(level) = out.respawn_at_level {
+            // this process is tainted (a leaked thread may hold a process-wide lock): hand the run back
+            flush_summary(&mut sum, &mut distinct, &mut measures);
+            let mut lock = stdout.lock();
+            let _ = writeln!(lock, "{}", json!({"t": "stuck", "index": i, "level": level}));
+            let _ = lock.flush();
+            std::process::exit(0);
+        }
+        if crate::simrt::tainted() {
+            // stuck at the coarsest level (reported as a harness error below): later runs need a fresh process
+            flush_summary(&mut sum, &mut distinct, &mut measures);
+            let mut lock = stdout.lock();
+            let _ = writeln!(lock, "{}", json!({"t": "sum", "sum": Summary { harness_errors: vec![format!("run {}: {}", i, out.harness_error.clone().unwrap_or_else(|| "stuck in the simulator".into()))], ..Summary::default() }}));
+            let _ = writeln!(lock, "{}", json!({"t": "stuck", "index": i + step, "level": 0}));
+            let _ = lock.flush();
+            std::process::exit(0);
+        }
         sum.evaluations += 1;
         for (k, v) in &out.reach {
             *sum.reach.entry(k.clone()).or_insert(0) += v;
@@ -280,10 +305,13 @@ struct WorkerSlot {
     last_change: Instant,
     done: bool,
     eof: bool,
+    /// the worker handed a stuck run back: (run index, preemption level to restart at)
+    stuck: Option<(u64, u8)>,
 }
 
-fn spawn_worker(prop_id: &str, opts: &DriverOpts, from: u64, to: u64, step: u64, widx: usize, tx: &mpsc::Sender<Msg>, workdir: &Path) -> WorkerSlot {
-    let progress = workdir.join(format!("progress-{}-{}", widx, from));
+#[allow(clippy::too_many_arguments)]
+fn spawn_worker(prop_id: &str, opts: &DriverOpts, from: u64, to: u64, step: u64, widx: usize, tx: &mpsc::Sender<Msg>, workdir: &Path, first_level: u8) -> WorkerSlot {
+    let progress = workdir.join(format!("progress-{}-{}-{}", widx, from, first_level));
     let exe = std::env::current_exe().expect("current_exe");
     let mut cmd = Command::new(exe);
     cmd.arg("worker")
@@ -299,7 +327,9 @@ fn spawn_worker(prop_id: &str, opts: &DriverOpts, from: u64, to: u64, step: u64,
         .arg("--step")
         .arg(step.to_string())
         .arg("--progress")
-        .arg(&progress);
+        .arg(&progress)
+        .arg("--first-level")
+        .arg(first_level.to_string());
     if opts.keep_digests {
         cmd.arg("--digests");
     }
@@ -328,7 +358,7 @@ fn spawn_worker(prop_id: &str, opts: &DriverOpts, from: u64, to: u64, step: u64,
         }
         let _ = tx.send(Msg::Eof(widx));
     });
-    WorkerSlot { child, progress, offset: from, last_progress: u64::MAX - 1, last_change: Instant::now(), done: false, eof: false }
+    WorkerSlot { child, progress, offset: from, last_progress: u64::MAX - 1, last_change: Instant::now(), done: false, eof: false, stuck: None }
 }
 
 fn read_progress(p: &Path) -> Option<u64> {
@@ -360,7 +390,7 @@ pub fn run_batch(prop: &dyn Prop, opts: &DriverOpts, n: u64) -> Aggregate {
     let k = opts.workers.max(1).min(n.max(1) as usize);
     let mut slots: Vec<WorkerSlot> = Vec::new();
     for w in 0..k {
-        slots.push(spawn_worker(prop.id(), opts, w as u64, n, k as u64, w, &tx, &workdir));
+        slots.push(spawn_worker(prop.id(), opts, w as u64, n, k as u64, w, &tx, &workdir, 0));
     }
     let mut agg = Aggregate {
         evaluations: 0,
@@ -374,6 +404,8 @@ pub fn run_batch(prop: &dyn Prop, opts: &DriverOpts, n: u64) -> Aggregate {
         crashes: 0,
         timeouts: 0,
     };
+    let mut stopping = false;
+    let mut stuck_respawns = 0u64;
     loop {
         if slots.iter().all(|s| s.eof) {
             break;
@@ -387,6 +419,14 @@ pub fn run_batch(prop: &dyn Prop, opts: &DriverOpts, n: u64) -> Aggregate {
                         if let Ok(f) = serde_json::from_value::<Failure>(v["failure"].clone()) {
                             if agg.failures.len() < 200 {
                                 agg.failures.push((idx, f));
+                            }
+                        }
+                        // a tree this broken needs no further sampling: stop the batch early
+                        if agg.failures.len() >= EARLY_STOP_FAILURES && !stopping {
+                            stopping = true;
+                            for s in slots.iter_mut() {
+                                let _ = s.child.kill();
+                                s.done = true;
                             }
                         }
                     }
@@ -416,6 +456,10 @@ pub fn run_batch(prop: &dyn Prop, opts: &DriverOpts, n: u64) -> Aggregate {
                         }
                     }
                     Some("done") => slots[w].done = true,
+                    Some("stuck") => {
+                        slots[w].stuck = Some((v["index"].as_u64().unwrap_or(u64::MAX), v["level"].as_u64().unwrap_or(2) as u8));
+                        stuck_respawns += 1;
+                    }
                     _ => {}
                 }
             }
@@ -423,6 +467,15 @@ pub fn run_batch(prop: &dyn Prop, opts: &DriverOpts, n: u64) -> Aggregate {
                 let status = slots[w].child.wait().ok();
                 if slots[w].done {
                     slots[w].eof = true;
+                    continue;
+                }
+                if let Some((at, level)) = slots[w].stuck.take() {
+                    // a run stuck in the simulator tainted that process: same run, coarser preemption, fresh process
+                    if at < n && !stopping {
+                        slots[w] = spawn_worker(prop.id(), opts, at, n, k as u64, w, &tx, &workdir, level);
+                    } else {
+                        slots[w].eof = true;
+                    }
                     continue;
                 }
                 // the worker died mid-run: attribute to the run in progress
@@ -452,7 +505,7 @@ pub fn run_batch(prop: &dyn Prop, opts: &DriverOpts, n: u64) -> Aggregate {
                         }
                         let k = k as u64;
                         let next = i + k;
-                        slots[w] = spawn_worker(prop.id(), opts, next, n, k, w, &tx, &workdir);
+                        slots[w] = spawn_worker(prop.id(), opts, next, n, k, w, &tx, &workdir, 0);
                     }
                     _ => {
                         agg.harness_errors.push(format!("worker {} died without progress information (status {:?})", w, status));
@@ -482,6 +535,9 @@ pub fn run_batch(prop: &dyn Prop, opts: &DriverOpts, n: u64) -> Aggregate {
     }
     let _ = std::fs::remove_dir_all(&workdir);
     let _ = slots.iter().map(|s| s.offset).count();
+    if stuck_respawns > 0 {
+        *agg.reach.entry("worker_restarted_after_run_stuck_in_simulator".into()).or_insert(0) += stuck_respawns;
+    }
     agg
 }
 
